@@ -5,7 +5,7 @@ V = '/verif'
 props = [json.loads(l) for l in open(f'{V}/properties.jsonl')]
 claims = json.load(open(f'{V}/claims.json'))
 hooks = subprocess.run(['git','-C','/repo','log','--format=%H %s'],capture_output=True,text=True).stdout.splitlines()
-hook_commits = [l.split()[0] for l in hooks if ' verif hook' in l]
+hook_commits = [l.split()[0] for l in hooks if ' verif hook' in l or 'uncommitted hook changes' in l]
 checks = []
 na = []
 for p in props:
